@@ -46,7 +46,9 @@ PROPS = {
         title='Split, join, cast and rounding',
         verus=['val_mut', 'exec_glue', 'val_arrays'], kani=['c07_'],
         technique=V + ' (cut/cast/turn kind and error tables, std preconditions such as from_str_radix radix range as '
-                      'proof obligations; string contents uninterpreted) + ' + K + ' (rounding and integrality on all f64)',
+                      'proof obligations; string contents uninterpreted; ExecStmt::mutation_helper / visit_mutation / visit_rounding '
+                      'over the ghost event trace: parameter once and first, into-destination never writes the operand, one writer '
+                      'application, result returned unchanged) + ' + K + ' (rounding and integrality on all f64)',
     ),
     'C08': dict(
         title='Input and output happen once each, in program order',
@@ -133,14 +135,17 @@ PROPS = {
     ),
     'C11': dict(
         title='Poetic literals denote the number or string their words spell',
-        verus=['tables', 'poetic', 'parser_poetic'], kani=['c11_'],
+        verus=['tables', 'poetic', 'parser_poetic', 'exec_glue'], kani=['c11_'],
         technique=V + ' — PARTIAL: ast.rs: grouping of literal elements into digits (a word with ALL suffixes that follow it is one '
                       'digit; orphan suffixes; PoeticNumberLiteralIterator::next / greedily_match_suffixes, unbounded), the per-digit '
                       'term of compute_value ((sum of word lengths) mod 10 times 10^(exponent - index), closure body extracted; f64 '
                       'uninterpreted); parser.rs: literal-vs-expression decision of the right-hand side, tokens admitted into a '
                       'literal, element produced per token incl. hyphen joining, no leading hyphen / empty literal. + Kani bounded '
-                      'harness for word_len (valid UTF-8 of <= 2 bytes, labelled bounded). Not decided: the iterator chain of '
-                      'compute_value around the term (position of the period, enumerate, sum), float rounding, poetic strings',
+                      'harness for word_len (valid UTF-8 of <= 2 bytes, labelled bounded). compute_value: exponent = groups before the '
+                      'FIRST period - 1 (position_or_end under contract); exec_stmt.rs: visit_poetic_number_assignment / '
+                      'visit_poetic_string_assignment store exactly the evaluated value / the string with the literal text, once. '
+                      'Not decided: the filter/enumerate/sum chain of compute_value around the term (one assumed shim), float rounding, '
+                      'the text slicing of poetic strings (get_literal_text_after: pointer arithmetic, assumed)',
         level_note='partial: see DESIGN.md §10.3b; word_len only bounded',
     ),
     'C12': dict(
